@@ -880,6 +880,91 @@ impl Family for EpPin {
     }
 }
 
+/// EPDIAG: a white pawn on its 5th rank, next to it the black pawn that has just double-stepped; the
+/// white king and a black bishop or queen stand on one DIAGONAL through the black pawn's square, on
+/// opposite sides of it, with nothing else between them (so the en passant capture is pseudo-legal,
+/// the capturing pawn is not pinned, and the capture uncovers the king along the diagonal); black king
+/// anywhere, up to two more black pieces anywhere. White to move. Together with EPPIN (the rank)
+/// this is every line an en passant capture can open by removing the captured pawn.
+pub struct EpDiag;
+impl Family for EpDiag {
+    fn name(&self) -> String {
+        "EPDIAG".into()
+    }
+    fn len(&self) -> u64 {
+        64 * 5 * 64 * 3 * 64 * 8 * 2 * 4 * 6 * 6 * 2
+    }
+    fn decode(&self, mut i: u64) -> Option<Pos> {
+        let mut take = |n: u64| -> u64 {
+            let v = i % n;
+            i /= n;
+            v
+        };
+        let bk = take(64) as u8;
+        let x1k = take(5) as usize; // none Q R B N
+        let x1 = take(64) as u8;
+        let x2k = take(3) as usize; // none Q N
+        let x2 = take(64) as u8;
+        let bf = take(8) as i8;
+        let wside = if take(2) == 0 { -1i8 } else { 1 };
+        let (dx, dy) = [(1i8, 1i8), (1, -1), (-1, 1), (-1, -1)][take(4) as usize];
+        let kd = 1 + take(6) as i8;
+        let sd = 1 + take(6) as i8;
+        let queen = take(2) == 0;
+        if (x1k == 0 && x1 != 0) || (x2k == 0 && x2 != 0) {
+            return None;
+        }
+        let row = 3i8;
+        let bp = sq_at(bf, row)?;
+        let wp = sq_at(bf + wside, row)?;
+        let wk = sq_at(bf + dx * kd, row + dy * kd)?;
+        let sl = sq_at(bf - dx * sd, row - dy * sd)?;
+        let mut p = Pos::empty();
+        p.board[wk as usize] = pc(WHITE, KING);
+        p.board[bp as usize] = pc(BLACK, PAWN);
+        if p.board[wp as usize] != EMPTY {
+            return None;
+        }
+        p.board[wp as usize] = pc(WHITE, PAWN);
+        if p.board[sl as usize] != EMPTY {
+            return None;
+        }
+        p.board[sl as usize] = pc(BLACK, if queen { QUEEN } else { BISHOP });
+        p.ep = sq_at(bf, 2)?;
+        let keep_free = [sq_at(bf, 2)?, sq_at(bf, 1)?];
+        // the squares of the diagonal strictly between king and slider stay empty (except the pawn)
+        let mut between: Vec<u8> = Vec::new();
+        for d in 1..kd {
+            between.push(sq_at(bf + dx * d, row + dy * d)?);
+        }
+        for d in 1..sd {
+            between.push(sq_at(bf - dx * d, row - dy * d)?);
+        }
+        let mut placed: Vec<(u8, u8)> = vec![(bk, pc(BLACK, KING))];
+        if x1k != 0 {
+            placed.push((x1, pc(BLACK, [QUEEN, ROOK, BISHOP, KNIGHT][x1k - 1])));
+        }
+        if x2k != 0 {
+            placed.push((x2, pc(BLACK, [QUEEN, KNIGHT][x2k - 1])));
+        }
+        for (sq, piece) in placed {
+            if p.board[sq as usize] != EMPTY || keep_free.contains(&sq) || between.contains(&sq) {
+                return None;
+            }
+            p.board[sq as usize] = piece;
+        }
+        if between.iter().any(|&sq| p.board[sq as usize] != EMPTY) {
+            return None;
+        }
+        p.stm = WHITE;
+        if p.is_legal_position() {
+            Some(p)
+        } else {
+            None
+        }
+    }
+}
+
 /// PROMO2: two white pawns on their 7th rank one or two files apart (two apart: both can capture onto
 /// the square between them), a black piece of every kind on each of the squares in front of and
 /// between them that a menu selects, both kings anywhere, one black slider anywhere (pins one of
